@@ -12,6 +12,13 @@ A *case* is a structural tuple, never source text.  Four families::
     ("mod",  how, hglob, hshape)
     ("seq",  first, placement, second, rvloc, mglob, hglob)
 
+    ("shadow", stmt, var, where, mglob, hglob)
+
+    family "shadow": the main template starts with a top-level {% set <var> = "S" %} that shadows a render argument
+    (var "rv") or an environment global (var "eg"); then stmt (SEQ_FIRST: include / include with context /
+    import with context / from-import with context of helper "h", shape ("pubm",)) sits at the top level
+    (where "top") or inside {% block b %} (where "block").  The helper must see "S".
+
     family "seq" (two statements in sequence, main template WITHOUT any top-level assignment before them): a first
     statement that passes the live local `loc` to the helper inside a for / with / macro, then, after that scope has
     ended, a second statement that shows whether `loc` is still visible (it must not be; a render variable of the
@@ -46,6 +53,9 @@ A *case* is a structural tuple, never source text.  Four families::
                impas  {% set sub = "s" %}{% import "h2" as sub %}              and the body prints [{{ sub.deep() }}]
                impfrom {% set deep = "d" %}{% from "h2" import deep with context %}   and the body prints /{{ deep() }}/
                       (the name is assigned first so that the export bookkeeping has something to undo)
+               alias1 {% macro deep2() %}own{% endmacro %}{% from "h2" import deep2 as al1 %}   (own public deep2 stays
+                      exported, al1 is not)        alias2 {% set al2 = "x" %}{% from "h2" import deep2 as al2 %} (al2 not exported)
+                      (EXTRA_FEATURES: only in the few extra shapes of helper_shapes(), not in the full product)
                The helper body always ends with H<rv.loc.eg.mg.hg> (each empty when not visible).
     how        "module" (Template.module), "make_module" (make_module({"rv": "R2"})), for templates obtained by
                "get" (get_template) or "fs" (from_string):  how in HOWS
@@ -66,6 +76,9 @@ from __future__ import annotations
 
 import itertools
 
+EXTRA_FEATURES = ("alias1", "alias2")
+SHADOW_VARS = ("rv", "eg")
+SHADOW_WHERE = ("top", "block")
 FEATURES = ("pubm", "privm", "topa", "priva", "ifa", "fora", "impas", "impfrom")
 PLACEMENTS = ("top", "for", "with", "macro", "afterset")
 CTXS = (None, "with", "without")
@@ -87,7 +100,7 @@ HELPER_GLOBALS = {"hg": "K"}
 RENDER_VARS = {"rv": "R"}
 LOCS = {"top": (None,), "for": ("L1", "L2"), "with": ("W",), "macro": ("M",), "afterset": ("S",)}
 # every name a helper module could conceivably expose
-PROBE_NAMES = ("pub", "_priv", "top", "_pv", "ifv", "ifn", "forv", "q", "sub", "deep", "rv", "loc", "eg", "mg", "hg")
+PROBE_NAMES = ("pub", "_priv", "top", "_pv", "ifv", "ifn", "forv", "q", "sub", "deep", "deep2", "al1", "al2", "rv", "loc", "eg", "mg", "hg")
 
 
 class TemplateRef:
@@ -113,14 +126,18 @@ class TemplateFromString:
 # ------------------------------------------------------------------ enumeration
 
 
+_EXTRA_SHAPES = [("alias1",), ("alias2",), ("alias1", "alias2"), ("pubm", "topa", "alias1", "alias2"),
+                 FEATURES + EXTRA_FEATURES]
+
+
 def helper_shapes(bound):
     if bound == "quick":
-        return [()] + [(f,) for f in FEATURES] + [FEATURES]
+        return [()] + [(f,) for f in FEATURES] + [FEATURES] + _EXTRA_SHAPES
     out = []
     for r in range(len(FEATURES) + 1):
         for c in itertools.combinations(FEATURES, r):
             out.append(c)
-    return out
+    return out + _EXTRA_SHAPES
 
 
 INC_SHAPES = ((), ("impas",), ("impfrom",), ("impas", "impfrom"))
@@ -149,6 +166,12 @@ def _all_cases(bound):
                 for second in SEQ_SECOND:
                     for rvloc in (False, True):
                         yield ("seq", first, placement, second, rvloc, mglob, hglob)
+    # a top-level assignment shadowing a render argument / global, statement at top level or in a block
+    for mglob, hglob in globs:
+        for where in SHADOW_WHERE:
+            for var in SHADOW_VARS:
+                for stmt in SEQ_FIRST:
+                    yield ("shadow", stmt, var, where, mglob, hglob)
     # import ... as m
     for shape in shapes:
         for mglob, hglob in globs:
@@ -203,6 +226,10 @@ def _fields(case):
     if fam == "mod":
         _, how, hglob, shape = case
         return dict(fam=fam, how=how, hglob=hglob, shape=tuple(shape), mglob=False)
+    if fam == "shadow":
+        _, stmt, var, where, mglob, hglob = case
+        return dict(fam=fam, stmt=stmt, var=var, where=where, placement=where, mglob=mglob, hglob=hglob,
+                    shape=SEQ_SHAPE, ctx="with", ignore=False, target="lit", variant=None)
     if fam == "seq":
         _, first, placement, second, rvloc, mglob, hglob = case
         return dict(fam=fam, first=first, second=second, rvloc=rvloc, placement=placement, mglob=mglob, hglob=hglob,
@@ -215,7 +242,8 @@ def _fields(case):
 _VARS_OUT = ".".join("{{ %s }}" % v for v in VARS)
 _VARS_CAT = ' ~ "." ~ '.join(VARS)
 
-H2_SRC = "{% macro deep() %}D({{ rv }}.{{ loc }}.{{ eg }}.{{ hg }}){% endmacro %}h2body"
+H2_SRC = ("{% macro deep() %}D({{ rv }}.{{ loc }}.{{ eg }}.{{ hg }}){% endmacro %}"
+          "{% macro deep2() %}E2{% endmacro %}h2body")
 BOOM_SRC = "B{{ nothing.attr }}"
 INNER_MISSING_SRC = 'X{% include "nope" %}'
 
@@ -238,6 +266,10 @@ def helper_source(shape):
         s.append('{% set sub = "s" %}{% import "h2" as sub %}')
     if "impfrom" in shape:
         s.append('{% set deep = "d" %}{% from "h2" import deep with context %}')
+    if "alias1" in shape:
+        s.append('{% macro deep2() %}own{% endmacro %}{% from "h2" import deep2 as al1 %}')
+    if "alias2" in shape:
+        s.append('{% set al2 = "x" %}{% from "h2" import deep2 as al2 %}')
     if "impas" in shape:
         s.append("[{{ sub.deep() }}]")
     if "impfrom" in shape:
@@ -270,8 +302,8 @@ def _target_expr(target):
 
 # names requested by the from-import and how each is shown: (name in helper, alias in main)
 FROM_NAMES = (("pub", "pub"), ("top", "z"), ("ifv", "ifv"), ("ifn", "ifn"), ("forv", "forv"), ("sub", "sub"),
-              ("deep", "deep"), ("missing_name", "missing_name"))
-IMP_NAMES = ("pub", "_priv", "top", "_pv", "ifv", "ifn", "forv", "q", "sub", "deep", "nope")
+              ("deep", "deep"), ("deep2", "deep2"), ("al1", "al1"), ("al2", "al2"), ("missing_name", "missing_name"))
+IMP_NAMES = ("pub", "_priv", "top", "_pv", "ifv", "ifn", "forv", "q", "sub", "deep", "deep2", "al1", "al2", "nope")
 
 
 def exports(shape):
@@ -285,6 +317,8 @@ def exports(shape):
         out["top"] = "value"
     if "ifa" in shape:
         out["ifv"] = "value"
+    if "alias1" in shape:
+        out["deep2"] = "macro"  # the helper's own public macro; importing h2's deep2 under another name does not touch it
     # CALIBRATED: a template's own imports (sub, deep) are not re-exported, also when the name was
     # assigned before and is re-bound by the import
     return out
@@ -340,9 +374,19 @@ def _seq_source(f):
     raise ValueError(pl)
 
 
+def _shadow_source(f):
+    x = _SEQ_STMT[f["stmt"]]
+    head = '{% set ' + f["var"] + ' = "S" %}'
+    if f["where"] == "block":
+        return head + "M[{% block b %}" + x + "{% endblock %}]"
+    return head + "M[" + x + "]"
+
+
 def main_source(case):
     f = _fields(case)
     fam = f["fam"]
+    if fam == "shadow":
+        return _shadow_source(f)
     if fam == "seq":
         return _seq_source(f)
     tx = _target_expr(f["target"])
@@ -444,6 +488,8 @@ def observe_module(mod):
         obs["top"] = str(mod.top)
     if hasattr(mod, "ifv"):
         obs["ifv"] = str(mod.ifv)
+    if hasattr(mod, "deep2"):
+        obs["deep2()"] = str(mod.deep2())
     return obs
 
 
@@ -525,7 +571,24 @@ def module_values(shape, vis):
         vals["top"] = "T(" + _fmt(vis) + ")"
     if "ifv" in ex:
         vals["ifv"] = "I"
+    if "deep2" in ex:
+        vals["deep2"] = "own"
     return vals
+
+
+def _expected_shadow(f):
+    vis = dict(ENV_GLOBALS)
+    if f["mglob"]:
+        vis.update(MAIN_GLOBALS)
+    vis.update(RENDER_VARS)
+    # docs "Assignments": a top-level assignment sets the variable for the rest of the template (it is what
+    # {{ var }} prints from then on, whatever render() or the globals said) and the include / import with
+    # context passes the CURRENT context.  CALIBRATED: top-level assignments are visible inside blocks.
+    vis[f["var"]] = "S"
+    hvis = visible("with", vis, None, None)
+    if f["stmt"] in ("inc", "incw"):
+        return "M[" + helper_body(SEQ_SHAPE, hvis, f["hglob"]) + "]"
+    return "M[" + module_values(SEQ_SHAPE, hvis)["pub"] + "]"
 
 
 def _expected_seq(f):
@@ -571,10 +634,14 @@ def expected(case):
             obs["top"] = vals["top"]
         if "ifv" in vals:
             obs["ifv"] = vals["ifv"]
+        if "deep2" in vals:
+            obs["deep2()"] = vals["deep2"]
         return obs
     fam, target, ctx = f["fam"], f["target"], f["ctx"]
     if fam == "seq":
         return _expected_seq(f)
+    if fam == "shadow":
+        return _expected_shadow(f)
     if fam == "from" and f["variant"] == "priv":
         # docs "Import": names starting with underscores are private and cannot be imported
         return ("exc", "TemplateAssertionError")
